@@ -173,8 +173,8 @@ def nonempty(ctx, db):
                                 badsite.setdefault(it['loc'], tr)
                         if o in ('push_back', 'emplace_back'):
                             fact = True
-                    ev = it.ev if it.k == 'enter' else it
-                    if ev.k == 'call' and norm(ev.get('callee')) == 'cocls::scheduler::pop_item' and it.k != 'leave':
+                    ev = it
+                    if ev.k == 'call' and norm(ev.get('callee')) == 'cocls::scheduler::pop_item' and it.k not in ('enter', 'leave'):
                         sites.add(ev['loc'])
                         if not fact:
                             badsite.setdefault(ev['loc'], tr)
@@ -200,7 +200,7 @@ def schedule_notifies(ctx, db):
                     ce = cond_event(tr, i)
                     if ce is not None and ce.k == 'call' and op(ce) == 'empty' and norm(ce.get('field') or '') == S and i < pb:
                         was_empty = bool(it.val)
-                    if re.fullmatch(r'local:\w+', it.path or '') and it.term == 'IfStmt':
+                    if re.fullmatch(r'local:\w+', it.get('opath') or it.path or '') and it.term == 'IfStmt':
                         flag = bool(it.val)
             cmp_after = [it for it in tr[pb:] if it.k == 'call' and norm(it.get('field') or '') == S and op(it) == 'operator[]'] if pb >= 0 else []
             if pb < 0:
@@ -239,8 +239,8 @@ def no_window(ctx, db):
         for tr in trs:
             g = -1
             for i, it in enumerate(tr):
-                ev = it.ev if it.k == 'enter' else it
-                if it.k == 'leave':
+                ev = it
+                if it.k in ('enter', 'leave'):
                     continue
                 if ev.k == 'call' and norm(ev.get('callee')) == 'cocls::scheduler::get_expired_lk':
                     g = i
@@ -252,10 +252,10 @@ def no_window(ctx, db):
                         bad = bad or ('the worker waits without having computed the next deadline', tr)
                     else:
                         for x in tr[g:i]:
-                            xe = x.ev if x.k == 'enter' else x
-                            if x.k != 'leave' and xe.k == 'call' and norm(xe.get('callee')) in ('std::unique_lock::unlock', 'std::mutex::unlock'):
+                            xe = x
+                            if x.k not in ('enter', 'leave') and xe.k == 'call' and norm(xe.get('callee')) in ('std::unique_lock::unlock', 'std::mutex::unlock'):
                                 bad = bad or ('the scheduler lock is released between computing the deadline and waiting on it (lost wake-up window)', tr)
-                            if x.k != 'leave' and xe.k in ('co_await',):
+                            if x.k not in ('enter', 'leave') and xe.k in ('co_await',):
                                 bad = bad or ('the coroutine suspends between computing the deadline and waiting on it', tr)
         if nw == 0 and not bad:
             bad = ('the worker never waits', [])
